@@ -287,9 +287,9 @@ class Gen:
         """how Nr / Nt are passed"""
         if self.mode != 'typed':
             return 'pyint' if (uniform and self.rng.chance(0.3)) else 'array'
-        pool = ['array', 'int8', 'uint8', 'int16', 'int32', 'list', 'tuple']
+        pool = ['array', 'int8', 'uint8', 'int16', 'int32', 'uint16', 'uint32', 'uint64', 'list', 'tuple']
         if uniform:
-            pool += ['pyint', 'pyint', 'npint', 'npint']
+            pool += ['pyint', 'pyint', 'npint', 'npint', 'arr0d', 'arr0d']
         return self.rng.choice(pool)
 
     # ---- layouts
@@ -312,15 +312,12 @@ class Gen:
         un_r, un_t = len(set(nr)) == 1, len(set(nt)) == 1
         op = {'op': kind, 'nr': nr, 'nt': nt, 'K': K, 'ntE': ntE,
               'nrf': self.nfmt(un_r), 'ntf': self.nfmt(un_t),
-              'kf': rng.choice(['py', 'np.int16', 'np.int64']) if self.mode == 'typed' else 'py',
-              'ntef': (rng.choice(['array', 'list', 'pyint', 'npint'] if len(ntE) == 1 else ['array', 'list'])
+              'kf': rng.choice(list(SCALAR_FORMS)) if self.mode == 'typed' else 'py', 'kw': rng.chance(0.3),
+              'ntef': (rng.choice(['array', 'list', 'pyint', 'npint', 'arr0d'] if len(ntE) == 1 else ['array', 'list'])
                        if self.ext else 'array')}
         if self.ext and kind == 'init':
             # the ExtInt override hstacks Nr/Nt with the interference counts: scalars are not accepted there
-            if op['nrf'] in ('pyint', 'npint'):
-                op['nrf'] = 'array'
-            if op['ntf'] in ('pyint', 'npint'):
-                op['ntf'] = 'array'
+            pass
         if kind == 'init':
             real = self.mode == 'typed' and rng.chance(0.5)
             op['M'] = self.mat(sum(nr), sum(nt) + sum(ntE), self.ea, real=real)
@@ -328,6 +325,7 @@ class Gen:
             op['scr'] = rng.chance(0.3)
         else:
             op['seed'] = rng.below(1 << 31)
+            op['reseed'] = rng.chance(0.1)       # re_seed() instead of set_channel_seed(seed)
         return op
 
     def op_init(self, kind=None):
@@ -503,7 +501,7 @@ class Gen:
     def op_setpl(self):
         rng = self.rng
         if rng.chance(0.2):
-            self.ops.append({'op': 'setpl', 'p': None, 'pe': None, 'noarg': rng.chance(0.5)})
+            self.ops.append({'op': 'setpl', 'p': None, 'pe': None, 'noarg': rng.chance(0.4), 'kw': rng.chance(0.4)})
             return
         K, E = self.K, len(self.ntE)
         if self.exact:
@@ -533,7 +531,7 @@ class Gen:
                 fp, fpe = {'dt': rng.choice(REALF_DT), 'lay': fp['lay']}, {'dt': rng.choice(INT_DT + ['uint8']), 'lay': 'C'}
             fp['mixed'] = True
         self.ops.append({'op': 'setpl', 'p': p, 'pe': pe if self.ext else None, 'fp': fp,
-                         'fpe': fpe if self.ext else None, 'scr': rng.chance(0.3)})
+                         'fpe': fpe if self.ext else None, 'scr': rng.chance(0.3), 'kw': rng.chance(0.3)})
 
     def op_noise(self):
         rng = self.rng
@@ -552,7 +550,7 @@ class Gen:
             vs = None if v is None else repr(v * 100.0 ** e)
         vf = 'float'
         if self.mode == 'typed' and v is not None and self.exact:
-            vf = rng.choice(['float', 'np.float32', 'np.float16'] + (['int', 'np.int8'] if v.denominator == 1 else []))
+            vf = rng.choice(['float', 'np.float32', 'np.float16', 'arr0d'] + (['int', 'np.int8'] if v.denominator == 1 else []))
         self.ops.append({'op': 'noise', 'v': vs, 'vf': vf})
 
     def op_setw(self):
@@ -564,7 +562,8 @@ class Gen:
             kinds = self.block_kinds(len(self.nr))
             w = [self.mat(n, rng.randint(1, n), self.ec, real=r) for n, r in zip(self.nr, kinds)]
             self.ops.append({'op': 'setw', 'w': w, 'as_list': rng.chance(0.5),
-                             'fws': [self.block_fmt(r, allow_list=True) for r in kinds], 'scr': rng.chance(0.3)})
+                             'fws': [self.block_fmt(r, allow_list=True) for r in kinds], 'scr': rng.chance(0.3),
+                             'kw': rng.chance(0.3)})
             self.w_none = False
         self.w_ok = True
 
@@ -576,7 +575,8 @@ class Gen:
         view = view or rng.choice(pool)
         op = {'op': view}
         Kt = self.K + len(self.ntE)
-        idxf = rng.choice(['py', 'np.int8', 'np.int64']) if self.mode == 'typed' else 'py'
+        idxf = rng.choice(list(SCALAR_FORMS)) if self.mode == 'typed' else 'py'
+        op['kw'] = rng.chance(0.3)
         if view == 'Hkl':
             if rng.chance(0.04):
                 op.update(k=self.K, l=0, expect='IndexError')
@@ -608,10 +608,44 @@ class Gen:
         self.ops.append({'op': kind, 'x': x, 'xe': xe, 'nseed': rng.below(1 << 31), 'ns': ns, 'fxs': fxs,
                          'fx': {'dt': None, 'lay': rng.choice(LAYOUTS) if self.mode == 'typed' else 'C'},
                          'xcont': rng.choice(['objarr', 'objarr', 'list', 'tuple']) if not self.ext else 'objarr',
-                         'scr': rng.chance(0.3)})
+                         'scr': rng.chance(0.3), 'kw': rng.chance(0.3)})
         last_nv = [o for o in self.ops if o['op'] == 'noise' and not o.get('expect')]
         if last_nv and last_nv[-1]['v'] is not None and Fraction(last_nv[-1]['v']) > 0:
             self.nv_pos = True
+
+    def op_query(self):
+        """R11: a public method that is not a setter, then reads"""
+        rng = self.rng
+        pool = ['calc_Q', 'calc_JP_Q', 'calc_SINR', 'calc_JP_SINR', 'copy', 'deepcopy', 'pickle', 'repr']
+        if self.ext:
+            pool.append('cov_extint')
+        self.ops.append({'op': 'query', 'which': rng.choice(pool), 'k': rng.below(max(self.K, 1))})
+        for _ in range(rng.randint(1, 3)):
+            self.op_read()
+
+    def op_fork(self):
+        """R13: a derived object (copy / deepcopy / pickle round trip) is mutated and used on its own; the parent
+        goes on afterwards"""
+        import copy as _copy
+        rng = self.rng
+        g = _copy.copy(self)
+        g.ops = []
+        for _ in range(rng.randint(1, 3)):
+            u = rng.uniform()
+            if u < 0.35:
+                g.op_setpl()
+            elif u < 0.5:
+                g.op_noise()
+            elif u < 0.65:
+                g.op_setw()
+            elif u < 0.85:
+                g.op_init()
+            else:
+                g.op_resplit()
+        g.burst()
+        child = [dict(o, scr=False) for o in g.ops]
+        self.ops.append({'op': 'fork', 'how': rng.choice(['copy', 'deepcopy', 'pickle']), 'child': child})
+        self.burst(short=True)
 
     def history(self, length):
         rng = self.rng
@@ -634,11 +668,15 @@ class Gen:
                 self.op_resplit()
             elif u < 0.135:
                 self.op_bad_init()
-            elif u < 0.155:
-                self.op_bad_rand()
+            elif u < 0.15:
+                self.op_query()
+            elif u < 0.162:
+                self.op_fork()
             elif u < 0.175:
-                self.op_bad_setpl()
+                self.op_bad_rand()
             elif u < 0.19:
+                self.op_bad_setpl()
+            elif u < 0.2:
                 self.op_bad_corrupt()
             elif u < 0.37:
                 self.op_setpl()
@@ -1610,49 +1648,58 @@ def replay(ctx, rep):
 def well_shaped(case):
     """every ACCEPTED operation has the documented argument shapes for the layout at that point (the python
     twin of `OpOK`, plus data / filter shapes and index ranges); operations marked `expect` are the
-    deliberately rejected calls"""
+    deliberately rejected calls; the operations of a derived object (`fork`) start from the parent's layout"""
     ext = case['cls'] == 'ext'
-    ops = case['ops']
-    K, nr, nt, ntE, w_rows = 0, [], [], [], None
-    started = False
-    for op in ops:
-        k = op['op']
-        if not started:
-            if k in ('init', 'rand') and not op.get('expect'):
-                started = True
-            elif k == 'noise' or (k == 'setw' and op['w'] is None) or (k == 'setpl' and op['p'] is None) or k == 'nv':
+
+    def ws(ops, st, started):
+        K, nr, nt, ntE, w_rows = st
+        for op in ops:
+            k = op['op']
+            if not started:
+                if k in ('init', 'rand') and not op.get('expect'):
+                    started = True
+                elif k == 'noise' or (k == 'setw' and op['w'] is None) or (k == 'setpl' and op['p'] is None) \
+                        or k == 'nv':
+                    continue
+                else:
+                    return None
+            if op.get('expect'):
+                if k in ('Hkl', 'Hk', 'Hkne') and op['k'] < K:
+                    return None
                 continue
-            else:
-                return False
-        if op.get('expect'):
-            if k in ('Hkl', 'Hk', 'Hkne') and op['k'] < K:
-                return False
-            continue
-        if k in ('init', 'rand'):
-            if len(op['nr']) != op['K'] or len(op['nt']) != op['K'] or (ext and not op['ntE']) \
-                    or (not ext and op['ntE']) or min(op['nr'] + op['nt'] + op['ntE'] + [1]) < 1 or op['K'] < 1:
-                return False
-            if k == 'init' and (len(op['M']) != sum(op['nr']) or
-                                any(len(r) != sum(op['nt']) + sum(op['ntE']) for r in op['M'])):
-                return False
-            K, nr, nt, ntE = op['K'], op['nr'], op['nt'], op['ntE']
-        elif k == 'setpl' and op['p'] is not None:
-            if len(op['p']) != K or any(len(r) != K for r in op['p']):
-                return False
-            if ext and (len(op['pe']) != K or any(len(r) != len(ntE) for r in op['pe'])):
-                return False
-        elif k == 'setw':
-            w_rows = None if op['w'] is None else [len(w) for w in op['w']]
-        elif k in ('corrupt', 'corruptc'):
-            if w_rows is not None and w_rows != list(nr):
-                return False
-            if [len(m) for m in op['x']] != list(nt) or [len(m) for m in op['xe']] != list(ntE):
-                return False
-        elif k == 'Hkl' and not (op['k'] < K and op['l'] < K + len(ntE)):
-            return False
-        elif k in ('Hk', 'Hkne') and not op['k'] < K:
-            return False
-    return started
+            if k == 'query':
+                continue
+            if k == 'fork':
+                if ws(op['child'], (K, nr, nt, ntE, w_rows), True) is None:
+                    return None
+                continue
+            if k in ('init', 'rand'):
+                if len(op['nr']) != op['K'] or len(op['nt']) != op['K'] or (ext and not op['ntE']) \
+                        or (not ext and op['ntE']) or min(op['nr'] + op['nt'] + op['ntE'] + [1]) < 1 or op['K'] < 1:
+                    return None
+                if k == 'init' and (len(op['M']) != sum(op['nr']) or
+                                    any(len(r) != sum(op['nt']) + sum(op['ntE']) for r in op['M'])):
+                    return None
+                K, nr, nt, ntE = op['K'], op['nr'], op['nt'], op['ntE']
+            elif k == 'setpl' and op['p'] is not None:
+                if len(op['p']) != K or any(len(r) != K for r in op['p']):
+                    return None
+                if ext and (len(op['pe']) != K or any(len(r) != len(ntE) for r in op['pe'])):
+                    return None
+            elif k == 'setw':
+                w_rows = None if op['w'] is None else [len(w) for w in op['w']]
+            elif k in ('corrupt', 'corruptc'):
+                if w_rows is not None and w_rows != list(nr):
+                    return None
+                if [len(m) for m in op['x']] != list(nt) or [len(m) for m in op['xe']] != list(ntE):
+                    return None
+            elif k == 'Hkl' and not (op['k'] < K and op['l'] < K + len(ntE)):
+                return None
+            elif k in ('Hk', 'Hkne') and not op['k'] < K:
+                return None
+        return (K, nr, nt, ntE, w_rows) if started else None
+
+    return ws(case['ops'], (0, [], [], [], None), False) is not None
 
 
 def minimise(case, call, cls):
